@@ -571,11 +571,19 @@ func (t *Terminal) handleKey(key rune) (line []string, ok bool) {
 		// literal or identifier is part of the query)
 		var queries []string
 		var quote rune
+		escaped := false
 		begin := 0
 		for cur := 0; cur < len(t.line); cur++ {
 			switch c := t.line[cur]; {
 			case quote != 0:
-				if c == quote {
+				// the engine's scanner lets a backslash escape the next
+				// character of a literal, the closing quote included
+				switch {
+				case escaped:
+					escaped = false
+				case c == '\\':
+					escaped = true
+				case c == quote:
 					quote = 0
 				}
 			case c == '\'' || c == '"':
